@@ -120,6 +120,41 @@ func KindSet(dmg []Damage) string {
 	return strings.Join(ks, "+")
 }
 
+// SigKinds names the damage class of a violation signature from its smallest culprit. It is KindSet
+// with the kinds that reach the same code site folded together, so that one root cause gets one
+// signature (the evidence detail keeps the literal kinds):
+//   - zero -> short: any file shorter than the 17 header bytes is sliced at the same line;
+//   - truncated, grown -> wronglen: a shard whose header is in place but whose length differs from its
+//     siblings' ("empty" = exactly the header stays apart: the coder takes a 0-length shard as absent);
+//   - for the outcome "wrong-bytes", missing shards are left out of the name when another kind is
+//     present: an absent file contributes no bytes, it only removes redundancy or makes the decoder
+//     look at the next shard, and the kind that supplied the wrong bytes is the one to name.
+func SigKinds(dmg []Damage, class string) string {
+	m := map[string]bool{}
+	for _, d := range dmg {
+		k := d.Kind
+		switch k {
+		case KZero:
+			k = KShort
+		case KTruncated, KGrown:
+			k = "wronglen"
+		}
+		m[k] = true
+	}
+	if class == "wrong-bytes" && len(m) > 1 {
+		delete(m, KMissing)
+	}
+	var ks []string
+	for k := range m {
+		ks = append(ks, k)
+	}
+	sort.Strings(ks)
+	if len(ks) == 0 {
+		return "none"
+	}
+	return strings.Join(ks, "+")
+}
+
 // Subsets returns every k-element subset of {0..n-1} in lexicographic order.
 func Subsets(n, k int) [][]int {
 	var out [][]int
@@ -699,7 +734,7 @@ func judge(r *report.Run, cases []Case, results []Result) {
 			if v.c.Repair {
 				suffix += "/repair-on"
 			}
-			v.sig = fmt.Sprintf("C25:%s:%s%s:%s", Config{v.c.D, v.c.P}, KindSet(v.culprit), suffix, v.class)
+			v.sig = fmt.Sprintf("C25:%s:%s%s:%s", Config{v.c.D, v.c.P}, SigKinds(v.culprit, v.class), suffix, v.class)
 		}
 		exp := "exactly the stored bytes (damaged shards <= p)"
 		if len(v.c.Dmg) > v.c.P {
